@@ -297,6 +297,16 @@ class Program:
             for p_ in ast.walk(mod_.tree):
                 for c_ in ast.iter_child_nodes(p_):
                     mod_.parent[c_] = p_
+        from .inline import flatten_attribute_records
+        for mname_, mod_ in self.modules.items():
+            if mname_.startswith("dds") and not mname_.startswith("dds_tests") and ("dataclass" in mod_.source or "NamedTuple" in mod_.source):
+                lg_ = flatten_attribute_records(mod_.tree, set(_KNOWN.get(mname_, [])))
+                if lg_:
+                    mod_.inlined += lg_
+                    mod_.parent = {}
+                    for p_ in ast.walk(mod_.tree):
+                        for c_ in ast.iter_child_nodes(p_):
+                            mod_.parent[c_] = p_
         for m in self.modules.values():
             self._index_module(m)
         for c in self.classes.values():
